@@ -14,6 +14,36 @@ def samekey(a, b):
 
 
 def mk(rng, quick):
+    sc = mk0(rng, quick)
+    return sc
+
+
+def variant(sc, rng):
+    """the same scenario with the stream under an alias and its key columns inside a nested object (s.dev.k1 = m.k1)"""
+    import copy, re
+    sc = copy.deepcopy(sc)
+    sc["sql"] = sc["sql"].replace(" FROM stream", " FROM stream s")
+    for j in sc["meta"]["joins"]:
+        a = {"meta": "m", "dim": "d"}[j["name"]]
+        for pr in j["on"]:
+            c = pr[0]
+            sc["sql"] = sc["sql"].replace(" %s = %s.%s" % (c, a, c), " s.dev.%s = %s.%s" % (c, a, c))
+            pr[0] = "dev." + c
+            pr.append(["dev", c])
+    # selected stream key columns stay top-level columns of the row; the join keys move into dev (with decoy values on top level)
+    for o in sc["ops"]:
+        if o["op"] in ("sync", "emit"):
+            r = o["row"]
+            dev = {}
+            for c in ("k1", "k2"):
+                if c in r:
+                    dev[c] = r[c]
+                    r[c] = rng.choice([r[c], "decoy", 99])
+            r["dev"] = dev
+    return sc
+
+
+def mk0(rng, quick):
     njoin = rng.choice([1, 1, 1, 2])
     names = ["meta", "dim"][:njoin]
     alias = {"meta": "m", "dim": "d"}
@@ -66,9 +96,17 @@ def mk(rng, quick):
             if rng.random() < 0.25: del row["loc"]          # a table row without the column: NULL under the alias
             for c, v in zip(j["_scols"], j["_keyt"]()): row[c] = v
             ops.append({"op": "upsert", "table": j["name"], "row": row})
-        else:
+        elif r < 0.95:
             j = rng.choice(joins)
             ops.append({"op": "delete", "table": j["name"], "key": j["_keyt"]()})
+        else:       # the table registered again under its name: the new contents replace the old ones for every later row
+            j = rng.choice(joins)
+            trows = []
+            for i in range(rng.choice([0, 1, 2])):
+                row = {"loc": "R%d_%d" % (len(ops), i), "n": rng.choice([5, 10, 20])}
+                for c, v in zip(j["_scols"], j["_keyt"]()): row[c] = v
+                trows.append(row)
+            ops.append({"op": "register", "table": j["name"], "rows": trows})
     meta = {"fam": "join", "joins": [{k: v for k, v in j.items() if not k.startswith("_")} for j in joins], "scols": ["id"] + scols_all}
     if where: meta["where"] = where
     return {"meta": meta, "sql": sql, "tables": tables, "ops": ops, "rows": []}
@@ -79,11 +117,12 @@ def run(tier):
     rng = random.Random(vlib.seed())
     quick = tier == "quick"
     scen = [mk(rng, quick) for _ in range(2500 if quick else 100000)]
+    scen += [variant(sc, rng) for sc in scen[:len(scen) // 5] if "where" not in sc["meta"]]
     # concurrent: the same operation lists with the table updates in a goroutine of their own and two EmitSync callers
     conc = []
     while len(conc) < (400 if quick else 20000):
         sc = mk(rng, quick)
-        if "where" in sc["meta"] or not any(o["op"] in ("upsert", "delete") for o in sc["ops"]):
+        if "where" in sc["meta"] or not any(o["op"] in ("upsert", "delete") for o in sc["ops"]) or any(o["op"] == "register" for o in sc["ops"]):
             continue
         extra = mk(rng, quick)      # more rows and updates of the same shape: longer overlap
         for o in sc["ops"]:
